@@ -2012,12 +2012,15 @@ Proof.
   induction fuel as [|f IH]; intros count s; cbn [write_loop].
   - cbn. auto.
   - destruct (wq s) as [|r rest] eqn:Hq; [auto|].
+    destruct (r_sh r && negb (sh_open s)); [cbn; auto|].
     destruct (sys_write (oracle s) (offered (skipn (r_widx r) (r_bufs r)))) as [res o'].
     destruct res as [n| |c].
     + destruct (req_done (req_update r n)).
       * destruct count; [|apply IH]. cbn. auto.
-      * match goal with |- context [if ?b then _ else _] => destruct b end; [apply IH | cbn; auto].
-    + match goal with |- context [if ?b then _ else _] => destruct b end; [apply IH | cbn; auto].
+      * match goal with |- context [if blocking ?x then _ else _] => destruct (blocking x) end;
+          [apply IH | cbn; auto].
+    + match goal with |- context [if blocking ?x then _ else _] => destruct (blocking x) end;
+        [apply IH | cbn; auto].
     + cbn. auto.
 Qed.
 
@@ -2053,6 +2056,15 @@ Proof.
     cbn. destruct (wq s); (split; [apply KC_same | unfold CD]; auto).
   - unfold api_close. destruct (closing s) eqn:Hc; [split; [apply KC_refl | apply CD_refl]|].
     split; [|unfold CD; auto]. unfold KC, FC; cbn. auto.
+  - unfold api_write2.
+    set (s0 := ev (EWrite2 (next_id s)) (ev (EWrite (next_id s) (sumN bufs)) (set_next_id (S (next_id s)) s))).
+    destruct (check_before_write2 s0); [split; [apply KC_same | unfold CD]; auto|].
+    set (s1 := set_wq _ _).
+    destruct (connecting s1); [split; [apply KC_same | unfold CD]; auto|].
+    destruct (wqs s0 =? 0); [|split; [apply KC_same | unfold CD]; auto].
+    destruct (uv_write_queue_frame s1) as (A & B & C & D).
+    split; [apply KC_same; [exact A | exact B] | unfold CD; split; [exact C | exact D]].
+  - split; [apply KC_same | unfold CD]; auto.
   - split; [apply KC_refl | apply CD_refl].
 Qed.
 
@@ -2091,6 +2103,22 @@ Proof.
     cbn. destruct (connecting s); [|auto]. destruct P as [X Y]. split; [exact X | auto].
   - unfold api_close. destruct (closing s) eqn:Hc; [exact P|].
     split; [unfold FC; cbn; auto | left; reflexivity].
+  - unfold api_write2.
+    set (s0 := ev (EWrite2 (next_id s)) (ev (EWrite (next_id s) (sumN bufs)) (set_next_id (S (next_id s)) s))).
+    destruct (check_before_write2 s0); [apply (Prog_same s); auto|].
+    set (s1 := set_wq _ _).
+    destruct (connecting s1) eqn:Hc; [apply (Prog_conn_enq s); auto|].
+    destruct P as [F P]. assert (F1 : FC s1) by exact F.
+    destruct (wqs s0 =? 0).
+    + destruct (uv_write_queue_frame s1) as (A & B & C & D).
+      apply (Prog_same (uv_write_queue s1)); auto.
+      split.
+      * unfold FC. rewrite A, B. exact F1.
+      * right. rewrite C, Hc. apply write_loop_prog.
+    + apply (Prog_same (set_armed true s1)); auto.
+      split; [exact F1|]. right. change (connecting (set_armed true s1)) with (connecting s1). rewrite Hc.
+      right; left; reflexivity.
+  - apply (Prog_same s); auto.
   - exact P.
 Qed.
 
@@ -2434,4 +2462,326 @@ Proof.
   intros [_ P] Hc Hw Hs Hr Hcl Hcd. unfold api_shutdown. rewrite Hw, Hs, Hr, Hcl, Hcd. cbn.
   destruct (wq s) eqn:Hq; cbn; [auto|]. split; [reflexivity|].
   destruct P as [P|P]; [congruence|]. rewrite Hc in P. destruct P as [P|P]; [congruence | exact P].
+Qed.
+
+(* ------------------------------------------------------------------ *)
+(* invariant, part 5: the descriptor of a uv_write2 goes out once      *)
+(* ------------------------------------------------------------------ *)
+Fixpoint nfd (t : list event) (id : nat) : nat :=      (* accepted sendmsg calls that carried id's descriptor *)
+  match t with
+  | [] => O
+  | EFd i :: t' => ((if Nat.eqb i id then 1 else 0) + nfd t' id)%nat
+  | _ :: t' => nfd t' id
+  end.
+
+Definition boring (e : event) : Prop :=
+  match e with EFd _ | EChunk _ _ _ | EWrite2 _ | EFdFail _ => False | _ => True end.
+
+Record I5 (W : list req) (t : list event) : Prop := {
+  f_pending : Forall (fun r => r_sh r = true ->
+                 In (EWrite2 (r_id r)) t /\ nfd t (r_id r) = O /\
+                 (forall off len, ~ In (EChunk (r_id r) off len) t)) W;
+  f_sent : Forall (fun r => r_sh r = false -> In (EWrite2 (r_id r)) t -> nfd t (r_id r) = 1%nat) W;
+  f_marked : forall id, (0 < nfd t id)%nat -> In (EWrite2 id) t;
+  f_once : forall id, (nfd t id <= 1)%nat;
+  (* t is newest first: l2 is what happened before *)
+  f_before : forall id l1 l2 off len, t = l1 ++ EChunk id off len :: l2 -> In (EWrite2 id) t -> nfd l2 id = 1%nat;
+  f_first : forall id l1 l2, t = l1 ++ EFd id :: l2 -> forall off len, ~ In (EChunk id off len) l2;
+  f_nofail_after : forall id l1 l2, t = l1 ++ EFdFail id :: l2 -> nfd l2 id = O
+}.
+
+Lemma cons_split {A} (e X : A) t l1 l2 :
+  e :: t = l1 ++ X :: l2 -> (l1 = [] /\ e = X /\ t = l2) \/ (exists l1', l1 = e :: l1' /\ t = l1' ++ X :: l2).
+Proof.
+  destruct l1 as [|a l1]; simpl; intros H; inversion H; subst; [left; auto | right; eauto].
+Qed.
+
+Lemma nfd_cons_other e t id : (forall i, e <> EFd i) -> nfd (e :: t) id = nfd t id.
+Proof. destruct e; simpl; auto. intros H. exfalso. eapply H; eauto. Qed.
+
+Lemma nfd_fresh n t : Forall (ev_id_lt n) t -> forall id, (n <= id)%nat -> nfd t id = O.
+Proof.
+  induction 1 as [|e t He Ht IH]; intros id Hid; simpl; auto.
+  destruct e; auto. simpl in He. destruct (Nat.eqb_spec id0 id); [lia|]. simpl. auto.
+Qed.
+
+Lemma I5_boring W t e : boring e -> I5 W t -> I5 W (e :: t).
+Proof.
+  intros Hb [A B C D E F G].
+  assert (Hn : forall id, nfd (e :: t) id = nfd t id).
+  { intros id. apply nfd_cons_other. intros i ->. destruct Hb. }
+  assert (Hin : forall X, ~ boring X -> In X (e :: t) -> In X t).
+  { intros X HX [->|H]; [contradiction | exact H]. }
+  constructor.
+  - eapply Forall_impl; [|exact A]. intros r H Hs. destruct (H Hs) as (H1 & H2 & H3).
+    split; [right; exact H1 | split; [rewrite Hn; exact H2|]].
+    intros off len X. apply (H3 off len). apply Hin; simpl; auto.
+  - eapply Forall_impl; [|exact B]. intros r H Hs Hw. rewrite Hn. apply H; auto. apply Hin; simpl; auto.
+  - intros id H. rewrite Hn in H. right. apply C; auto.
+  - intros id. rewrite Hn. apply D.
+  - intros id l1 l2 off len H Hw. destruct (cons_split _ _ _ _ _ H) as [(_ & X & _)|(l1' & -> & H')].
+    + subst e. destruct Hb.
+    + eapply E; eauto. apply Hin; simpl; auto.
+  - intros id l1 l2 H. destruct (cons_split _ _ _ _ _ H) as [(_ & X & _)|(l1' & -> & H')].
+    + subst e. destruct Hb.
+    + eapply F; eauto.
+  - intros id l1 l2 H. destruct (cons_split _ _ _ _ _ H) as [(_ & X & _)|(l1' & -> & H')].
+    + subst e. destruct Hb.
+    + eapply G; eauto.
+Qed.
+
+Lemma I5_sub W W' t :
+  (forall r', In r' W' -> exists r, In r W /\ r_id r' = r_id r /\ r_sh r' = r_sh r) -> I5 W t -> I5 W' t.
+Proof.
+  intros Hs [A B C D E F G]. rewrite Forall_forall in A, B. constructor; auto; apply Forall_forall; intros r' Hr'.
+  - destruct (Hs r' Hr') as (r & Hr & Ei & Es). rewrite Ei, Es. apply A; auto.
+  - destruct (Hs r' Hr') as (r & Hr & Ei & Es). rewrite Ei, Es. apply B; auto.
+Qed.
+
+Lemma I5_mark W t n :
+  (forall r, In r W -> r_id r <> n) -> (forall off len, ~ In (EChunk n off len) t) ->
+  I5 W t -> I5 W (EWrite2 n :: t).
+Proof.
+  intros Hw Hc [A B C D E F G].
+  assert (Hn : forall id, nfd (EWrite2 n :: t) id = nfd t id) by reflexivity.
+  rewrite Forall_forall in A, B.
+  constructor.
+  - apply Forall_forall. intros r Hr Hs. destruct (A r Hr Hs) as (H1 & H2 & H3).
+    split; [right; exact H1 | split; [exact H2|]]. intros off len [X|X]; [discriminate | eapply H3; eauto].
+  - apply Forall_forall. intros r Hr Hs [X|X]; [inversion X; exfalso; eapply Hw; eauto | apply B; auto].
+  - intros id H. right. apply C; auto.
+  - exact D.
+  - intros id l1 l2 off len H Hin. destruct (cons_split _ _ _ _ _ H) as [(_ & X & _)|(l1' & -> & H')]; [discriminate|].
+    destruct Hin as [X|X]; [|eapply E; eauto].
+    inversion X; subst. exfalso. apply (Hc off len). rewrite H'. apply in_or_app; right; left; auto.
+  - intros id l1 l2 H. destruct (cons_split _ _ _ _ _ H) as [(_ & X & _)|(l1' & -> & H')]; [discriminate|]. eapply F; eauto.
+  - intros id l1 l2 H. destruct (cons_split _ _ _ _ _ H) as [(_ & X & _)|(l1' & -> & H')]; [discriminate|]. eapply G; eauto.
+Qed.
+
+Lemma I5_grow W t r :
+  (r_sh r = true -> In (EWrite2 (r_id r)) t /\ nfd t (r_id r) = O /\ (forall off len, ~ In (EChunk (r_id r) off len) t)) ->
+  (r_sh r = false -> ~ In (EWrite2 (r_id r)) t) ->
+  I5 W t -> I5 (W ++ [r]) t.
+Proof.
+  intros H1 H2 [A B C D E F G]. constructor; auto; apply Forall_app; split; auto; constructor; auto.
+  intros Hs Hw. exfalso. apply (H2 Hs Hw).
+Qed.
+
+Lemma I5_fd r rest t :
+  r_sh r = true -> (forall r', In r' rest -> r_id r' <> r_id r) ->
+  I5 (r :: rest) t -> I5 (clear_sh r :: rest) (EFd (r_id r) :: t).
+Proof.
+  intros Hs Hd [A B C D E F G].
+  inversion A as [|? ? Ar A']; subst. inversion B as [|? ? Br B']; subst.
+  destruct (Ar Hs) as (A1 & A2 & A3).
+  assert (Hn : forall id, id <> r_id r -> nfd (EFd (r_id r) :: t) id = nfd t id).
+  { intros id Hne. simpl. destruct (Nat.eqb_spec (r_id r) id); [congruence | reflexivity]. }
+  assert (Hn1 : nfd (EFd (r_id r) :: t) (r_id r) = 1%nat) by (simpl; rewrite Nat.eqb_refl, A2; reflexivity).
+  rewrite Forall_forall in A', B'.
+  constructor.
+  - constructor; [intros X; discriminate X|]. apply Forall_forall. intros r' Hr' Hs'.
+    destruct (A' r' Hr' Hs') as (X1 & X2 & X3). split; [right; exact X1 | split].
+    + rewrite Hn; auto.
+    + intros off len [Y|Y]; [discriminate | eapply X3; eauto].
+  - constructor; [intros _ _; exact Hn1|]. apply Forall_forall. intros r' Hr' Hs' [Y|Y]; [discriminate|].
+    rewrite Hn; auto.
+  - intros id H. right. destruct (Nat.eq_dec id (r_id r)) as [->|Hne]; [exact A1|]. rewrite Hn in H; auto.
+  - intros id. destruct (Nat.eq_dec id (r_id r)) as [->|Hne]; [rewrite Hn1; auto | rewrite Hn; auto].
+  - intros id l1 l2 off len H Hin. destruct (cons_split _ _ _ _ _ H) as [(_ & X & _)|(l1' & -> & H')]; [discriminate|].
+    destruct Hin as [X|X]; [discriminate|]. eapply E; eauto.
+  - intros id l1 l2 H. destruct (cons_split _ _ _ _ _ H) as [(_ & X & Ht)|(l1' & -> & H')].
+    + inversion X; subst. exact A3.
+    + eapply F; eauto.
+  - intros id l1 l2 H. destruct (cons_split _ _ _ _ _ H) as [(_ & X & _)|(l1' & -> & H')]; [discriminate|]. eapply G; eauto.
+Qed.
+
+Lemma I5_chunk r r' rest t off n :
+  r_sh r = false -> r_id r' = r_id r -> r_sh r' = false ->
+  (forall r'', In r'' rest -> r_id r'' <> r_id r) ->
+  I5 (r :: rest) t -> I5 (r' :: rest) (EChunk (r_id r) off n :: t).
+Proof.
+  intros Hs Ei Es' Hd [A B C D E F G].
+  inversion A as [|? ? Ar A']; subst. inversion B as [|? ? Br B']; subst.
+  assert (Hn : forall id, nfd (EChunk (r_id r) off n :: t) id = nfd t id) by reflexivity.
+  rewrite Forall_forall in A', B'.
+  constructor.
+  - constructor; [intros X; congruence|]. apply Forall_forall. intros r'' Hr'' Hs''.
+    destruct (A' r'' Hr'' Hs'') as (X1 & X2 & X3). split; [right; exact X1 | split; [exact X2|]].
+    intros o l [Y|Y]; [inversion Y; exfalso; eapply Hd; eauto | eapply X3; eauto].
+  - constructor.
+    + intros _ [Y|Y]; [discriminate|]. rewrite Ei. apply Br; auto.
+    + apply Forall_forall. intros r'' Hr'' Hs'' [Y|Y]; [discriminate|]. apply B'; auto.
+  - intros id H. right. apply C; auto.
+  - exact D.
+  - intros id l1 l2 o l H Hin. destruct Hin as [Y|Hin]; [discriminate|].
+    destruct (cons_split _ _ _ _ _ H) as [(_ & X & Ht)|(l1' & -> & H')].
+    + inversion X; subst. apply Br; auto.
+    + eapply E; eauto.
+  - intros id l1 l2 H. destruct (cons_split _ _ _ _ _ H) as [(_ & X & _)|(l1' & -> & H')]; [discriminate|]. eapply F; eauto.
+  - intros id l1 l2 H. destruct (cons_split _ _ _ _ _ H) as [(_ & X & _)|(l1' & -> & H')]; [discriminate|]. eapply G; eauto.
+Qed.
+
+Lemma I5_fdfail r rest t : r_sh r = true -> I5 (r :: rest) t -> I5 (r :: rest) (EFdFail (r_id r) :: t).
+Proof.
+  intros Hs [A B C D E F G]. pose proof A as A0. inversion A0 as [|? ? Ar _]; subst. destruct (Ar Hs) as (_ & A2 & _).
+  assert (Hn : forall id, nfd (EFdFail (r_id r) :: t) id = nfd t id) by reflexivity.
+  rewrite Forall_forall in A, B.
+  constructor; auto.
+  - apply Forall_forall. intros r' Hr' Hs'. destruct (A r' Hr' Hs') as (X1 & X2 & X3).
+    split; [right; exact X1 | split; [exact X2|]]. intros o l [Y|Y]; [discriminate | eapply X3; eauto].
+  - apply Forall_forall. intros r' Hr' Hs' [Y|Y]; [discriminate|]. apply B; auto.
+  - intros id H. right. apply C; auto.
+  - intros id l1 l2 o l H Hin. destruct Hin as [Y|Hin]; [discriminate|].
+    destruct (cons_split _ _ _ _ _ H) as [(_ & X & _)|(l1' & -> & H')]; [discriminate|]. eapply E; eauto.
+  - intros id l1 l2 H. destruct (cons_split _ _ _ _ _ H) as [(_ & X & _)|(l1' & -> & H')]; [discriminate|]. eapply F; eauto.
+  - intros id l1 l2 H. destruct (cons_split _ _ _ _ _ H) as [(_ & X & Ht)|(l1' & -> & H')].
+    + inversion X; subst. exact A2.
+    + eapply G; eauto.
+Qed.
+
+(* a chunk of a request that is not a uv_write2 (fresh try_write id) *)
+Lemma I5_plainchunk W t n off m :
+  (forall r, In r W -> r_id r <> n) -> ~ In (EWrite2 n) t ->
+  I5 W t -> I5 W (EChunk n off m :: t).
+Proof.
+  intros Hw Hm [A B C D E F G]. rewrite Forall_forall in A, B.
+  constructor; auto.
+  - apply Forall_forall. intros r Hr Hs. destruct (A r Hr Hs) as (X1 & X2 & X3).
+    split; [right; exact X1 | split; [exact X2|]].
+    intros o l [Y|Y]; [inversion Y; exfalso; eapply Hw; eauto | eapply X3; eauto].
+  - apply Forall_forall. intros r Hr Hs [Y|Y]; [discriminate|]. apply B; auto.
+  - intros id H. right. apply C; auto.
+  - intros id l1 l2 o l H Hin. destruct Hin as [Y|Hin]; [discriminate|].
+    destruct (cons_split _ _ _ _ _ H) as [(_ & X & _)|(l1' & -> & H')].
+    + inversion X; subst. contradiction.
+    + eapply E; eauto.
+  - intros id l1 l2 H. destruct (cons_split _ _ _ _ _ H) as [(_ & X & _)|(l1' & -> & H')]; [discriminate|]. eapply F; eauto.
+  - intros id l1 l2 H. destruct (cons_split _ _ _ _ _ H) as [(_ & X & _)|(l1' & -> & H')]; [discriminate|]. eapply G; eauto.
+Qed.
+
+Definition Inv5 (s : st) : Prop := I5 (wq s) (tr s).
+
+Lemma req_update_sh r n : r_sh (req_update r n) = false.
+Proof. unfold req_update. destruct (upd_loop _ _). reflexivity. Qed.
+
+Lemma sorted_head_distinct (l1 : list req) r rest :
+  StronglySorted lt (map r_id (l1 ++ r :: rest)) -> forall r', In r' rest -> r_id r' <> r_id r.
+Proof.
+  intros H r' Hr'. rewrite map_app in H. simpl in H. apply sorted_mid_lt in H.
+  rewrite Forall_forall in H. specialize (H (r_id r') (in_map r_id _ _ Hr')). lia.
+Qed.
+
+Lemma no_event_fresh n t e : Forall (ev_id_lt n) t -> ~ ev_id_lt n e -> ~ In e t.
+Proof. intros H Hn X. apply Hn. eapply fresh_no_event; eauto. Qed.
+
+Lemma Inv5_prim s s' : prim s s' -> Inv2 s -> Inv5 s -> Inv5 s'.
+Proof.
+  intros P I2' I. unfold Inv5, Inv2 in *.
+  pose proof I2' as [Js Jf Jl _ _ _ _ _ _ _ _].
+  assert (Hlt : forall r, In r (wq s) -> (r_id r < next_id s)%nat).
+  { intros r Hr. rewrite Forall_forall in Jl. apply (Jl (lkey r)). apply in_map. unfold live.
+    apply in_or_app; right; apply in_or_app; right; exact Hr. }
+  assert (Hnd : forall r rest, wq s = r :: rest -> forall r', In r' rest -> r_id r' <> r_id r).
+  { intros r rest Hq. unfold live in Js. rewrite Hq, map_kid_lkey in Js. rewrite app_assoc in Js.
+    eapply sorted_head_distinct; eauto. }
+  assert (Hnew : forall r, In r (wq s) -> r_id r <> next_id s) by (intros r Hr; specialize (Hlt r Hr); lia).
+  assert (Hnochunk : forall t0, (forall e, In e t0 -> In e (tr s) \/ boring e) ->
+                     forall off len, ~ In (EChunk (next_id s) off len) t0).
+  { intros t0 Ht0 off len X. destruct (Ht0 _ X) as [Y|Y]; [|destruct Y].
+    apply (fresh_no_event _ _ Jf) in Y. simpl in Y. lia. }
+  destruct P; unfold call0, finish_head, flush in *; cbn in *.
+  - destruct H as (E1 & _ & _ & _ & _ & _ & _ & _ & _ & _ & E5). rewrite E1, E5. exact I.
+  - (* chunk *)
+    rewrite H in I. apply I5_chunk; auto using req_update_id, req_update_sh. eapply Hnd; eauto.
+  - rewrite H in I. eapply I5_sub; [|exact I]. intros r' Hr'. exists r'. simpl; auto.
+  - rewrite H in I. eapply I5_sub; [|exact I]. intros r' Hr'. exists r'. simpl; auto.
+  - apply I5_boring; simpl; auto. apply I5_boring; simpl; auto.
+  - (* enqueue without a handle *)
+    apply I5_grow; cbn.
+    + discriminate.
+    + intros _ [X|X]; [discriminate|]. apply (fresh_no_event _ _ Jf) in X. simpl in X. lia.
+    + apply I5_boring; simpl; auto.
+  - apply I5_boring; simpl; auto.
+  - apply I5_boring; simpl; auto. apply I5_boring; simpl; auto.
+  - (* try_write wrote: a fresh id that is no uv_write2 *)
+    apply I5_boring; simpl; auto. apply I5_plainchunk; auto.
+    + intros [X|X]; [discriminate|]. apply (fresh_no_event _ _ Jf) in X. simpl in X. lia.
+    + apply I5_boring; simpl; auto.
+  - apply I5_boring; simpl; auto.
+  - exact I.
+  - apply I5_boring; simpl; auto.
+  - exact I.
+  - exact I.
+  - destruct (r_freed r); cbn; apply I5_boring; simpl; auto.
+  - exact I.
+  - apply I5_boring; simpl; auto.
+  - exact I.
+  - apply I5_boring; simpl; auto.
+  - eapply I5_sub; [|exact I]. intros r' [].
+  - apply I5_boring; simpl; auto.
+  - apply I5_boring; simpl; auto.
+  - apply I5_boring; simpl; auto.
+  - (* fd *)
+    rewrite H in I. apply I5_fd; auto. eapply Hnd; eauto.
+  - rewrite H in I. rewrite H. apply I5_fdfail; auto.
+  - (* uv_write2 refused *)
+    apply I5_boring; simpl; auto. apply I5_mark; auto.
+    + apply Hnochunk. intros e [<-|He]; [right; simpl; auto | left; exact He].
+    + apply I5_boring; simpl; auto.
+  - (* uv_write2 enqueued *)
+    apply I5_grow; cbn.
+    + intros _. split; [left; reflexivity | split].
+      * apply (nfd_fresh _ _ Jf); auto.
+      * intros off len [X|[X|X]]; try discriminate. apply (fresh_no_event _ _ Jf) in X. simpl in X. lia.
+    + discriminate.
+    + apply I5_mark; auto.
+      * apply Hnochunk. intros e [<-|He]; [right; simpl; auto | left; exact He].
+      * apply I5_boring; simpl; auto.
+Qed.
+
+Lemma Inv5_init blk o sa pw c ip : Inv5 (init blk o sa pw c ip).
+Proof.
+  unfold Inv5. init_cases c; cbn; constructor; simpl; auto; try lia; try tauto;
+    intros; match goal with H : [] = ?l ++ _ :: _ |- _ => destruct l; discriminate end.
+Qed.
+
+Lemma Inv1235_steps s s' : steps s s' -> Inv1 s /\ Inv2 s /\ Inv5 s -> Inv1 s' /\ Inv2 s' /\ Inv5 s'.
+Proof.
+  induction 1; auto. intros (A & B & C). apply IHsteps.
+  split; [|split].
+  - eapply Inv1_prim; eauto.
+  - eapply Inv2_prim; eauto.
+  - eapply Inv5_prim; eauto.
+Qed.
+
+Lemma nfd_app a b id : nfd (a ++ b) id = (nfd a id + nfd b id)%nat.
+Proof. induction a as [|e a IH]; simpl; auto. destruct e; auto. rewrite IH. lia. Qed.
+
+Lemma nfd_rev t id : nfd (rev t) id = nfd t id.
+Proof. induction t as [|e t IH]; simpl; auto. rewrite nfd_app, IH. destruct e; simpl; lia. Qed.
+
+(* C05_send_handle_once, on the chronological trace *)
+Theorem send_handle_once beh blk o sa pw cfg ip ops :
+  let t := trace (exec beh (init blk o sa pw cfg ip) ops) in
+  (* at most one accepted sendmsg carries the descriptor of a request, and only a uv_write2 request has one *)
+  (forall id, (nfd t id <= 1)%nat) /\
+  (forall id, (0 < nfd t id)%nat -> In (EWrite2 id) t) /\
+  (* it is the first accepted one: no chunk of the request before it, every chunk of a uv_write2 request after it *)
+  (forall id l1 l2, t = l1 ++ EFd id :: l2 -> forall off len, ~ In (EChunk id off len) l1) /\
+  (forall id l1 l2 off len, t = l1 ++ EChunk id off len :: l2 -> In (EWrite2 id) t -> nfd l1 id = 1%nat) /\
+  (* attempts that failed with the descriptor attached (EAGAIN, error) all come before it *)
+  (forall id l1 l2, t = l1 ++ EFdFail id :: l2 -> nfd l1 id = O).
+Proof.
+  intros t. unfold t, trace.
+  destruct (exec_steps beh blk o sa pw cfg ip ops) as [S _].
+  destruct (Inv1235_steps _ _ S) as (_ & _ & I).
+  { split; [apply Inv1_init | split; [apply Inv2_init | apply Inv5_init]]. }
+  destruct I as [A B C D E F G].
+  split; [|split; [|split; [|split]]].
+  - intros id. rewrite nfd_rev. apply D.
+  - intros id H. rewrite nfd_rev in H. apply in_rev. rewrite rev_involutive. apply C; auto.
+  - intros id l1 l2 H off len X. apply rev_split in H. apply (F _ _ _ H off len). apply in_rev in X. exact X.
+  - intros id l1 l2 off len H X. apply rev_split in H. rewrite <- nfd_rev. eapply E; eauto.
+    apply in_rev in X. exact X.
+  - intros id l1 l2 H. apply rev_split in H. rewrite <- nfd_rev. eapply G; eauto.
 Qed.
